@@ -204,3 +204,22 @@ def limit_failures(ctx, per_key: int = 6) -> None:
             ctx.count(f"more:{key}")
     ctx.fail = fail
     ctx._sfv_limited = True
+
+
+def in_scratch_cwd(method):
+    """decorator for `explore(self, ctx)` / `replay(self, ctx, data)`: run with the process's current directory inside
+    `ctx.scratch/cwd`. The injection witnesses make the real code run mis-parsed shell commands (`mkdir a b`, `cd x; y > dir`, …) whose
+    relative paths would otherwise land in the checkout."""
+    import functools
+
+    @functools.wraps(method)
+    def wrapper(self, ctx, *args, **kwargs):
+        old = os.getcwd()
+        cwd = os.path.join(ctx.scratch, "cwd")
+        os.makedirs(cwd, exist_ok=True)
+        os.chdir(cwd)
+        try:
+            return method(self, ctx, *args, **kwargs)
+        finally:
+            os.chdir(old)
+    return wrapper
